@@ -115,13 +115,23 @@ def run(ctx):
                           {'op': 'vector-unicode', 'passphrase_repr': ascii(spelling), 'observed': None if k is None else k.wif()})
 
     # ---- EC-multiplied mode --------------------------------------------------------------------------------------------
-    for trial in range(12 if T else 4):
+    combos = [(False, True), (True, True), (False, False), (True, False)]
+    rng.shuffle(combos)
+    patterns = [1, 0, 2, 3]
+    for trial in range(16 if T else 6):
         pw = rng.choice(passes[:4])
         # every combination of (lot/sequence given, compressed) - the flag byte is 0x20 / 0x00 / 0x24 / 0x04 (BIP38)
-        lot, seq = (rng.randrange(100000, 999999), rng.randrange(0, 4095)) if trial % 2 else (None, None)
+        with_lot, comp = combos[trial % 4]
+        lot, seq = (rng.randrange(100000, 999999), rng.randrange(0, 4095)) if with_lot else (None, None)
         salt = bytes(rng.randrange(256) for _ in range(8))
-        comp = (trial // 2) % 2 == 0
-        seedb = bytes(rng.randrange(256) for _ in range(24))
+        # seeds with structure: leading / inner / trailing zero bytes (fixed-width fields must keep them), besides random ones
+        pat = patterns[trial % 4] if trial < 4 else rng.randrange(4)
+        rnd = lambda k: bytes(rng.randrange(1, 256) for _ in range(k))
+        seedb = {0: bytes(rng.randrange(256) for _ in range(24)), 1: b'\x00' + rnd(23), 2: rnd(8) + b'\x00' * 8 + rnd(8),
+                 3: b'\x00\x00' + rnd(13) + b'\x00' + b'\x00' + rnd(6) + b'\x00'}[pat]
+        if pat == 3:
+            salt = b'\x00' + salt[1:7] + b'\x00'
+        ctx.count('ec-seed-pattern:%d' % pat)
         ctx.evals += 1
         ctx.count('ec-mode')
         ctx.nontrivial.add(hash((pw, lot, seq, seedb)))
